@@ -183,6 +183,43 @@ def r19_3(ctx, repo):
                     '`%s` stores the user\'s `%s` object itself: later '
                     'changes to the user\'s model change this object'
                     % (field, param))
+    # every other constructor: the wrappers of the library keep the very
+    # object they wrap (Reduced*, Composed*, the hierarchical likelihood);
+    # a constructor that copies one of its user-supplied models and keeps
+    # another one as it is contradicts itself
+    for cls, c in sorted(repo.classes.items()):
+        if cls in SCOPE or '__init__' not in c.methods \
+                or c.relpath.startswith(('chi/plots', 'chi/library')):
+            continue
+        fn = c.methods['__init__']
+        rows = []
+        for field, param, t, kinds, node in _flows(fn, T, cls):
+            if t is None:
+                continue
+            et = t[1] if t[0] == 'list' else t
+            bases = et[0] if isinstance(et[0], tuple) else (et[0],)
+            if any(b in ROOTS for b in bases):
+                rows.append((field, param, kinds, node))
+        copied = [r for r in rows if r[2]]
+        raw = [r for r in rows if not r[2]]
+        for field, param, kinds, node in rows:
+            construct = '%s.__init__ %s' % (cls, field)
+            where = repo.loc(node, cls, '__init__')
+            if copied and not kinds:
+                ctx.violation(
+                    rule, where, construct, 'no copy (sibling copied)',
+                    '`%s` stores the user\'s `%s` object itself although the '
+                    'same constructor stores a copy of `%s`: configuring '
+                    'this object (dimension names, number of individuals, '
+                    'fixed parameters) then configures the user\'s model and '
+                    'every other object built from it' % (
+                        field, param, copied[0][1]))
+            else:
+                ctx.ok(rule, where, construct,
+                       'consistent with the other model arguments of the '
+                       'constructor (%s)' % ('copied' if kinds else
+                                             'a wrapper that keeps the '
+                                             'object it wraps'))
     if n < 9:
         ctx.error(rule, 'only %d constructor stores of user models found '
                   '(floor 9)' % n)
